@@ -672,9 +672,6 @@ class CallMixin:
             return self.construct(st, fv.ty.name, pos, kw, node)
         if k == "closure":
             qual = fv.ty.name
-            if qual in self.reg.specs:
-                env = SV(Val.recv(fv.t), ANY)
-                return self.call_spec(st, qual, pos, kw, self.anchor_for(node), awaited=awaited, env=env, packs=packs)
             fi = self.world.funcs.get(qual)
             if fi is not None and fi.is_async and any(isinstance(n, (ast.Yield, ast.YieldFrom)) for n in self.world._own_nodes(fi.node)):
                 # calling an async generator function creates the generator object; no part of its body runs (language semantics)
@@ -682,6 +679,9 @@ class CallMixin:
                 st.set_fld("__class__", a, con("async_generator:" + qual))
                 st.trace.append(("new-generator", qual, a))
                 return [Res(st, SV(vref(a), ANY))]
+            if qual in self.reg.specs:
+                env = SV(Val.recv(fv.t), ANY)
+                return self.call_spec(st, qual, pos, kw, self.anchor_for(node), awaited=awaited, env=env, packs=packs)
             if fi is not None and not fi.is_async and self.inline_depth < 2:
                 return self.inline_closure(st, fi, pos, kw)
             return self.opaque_call(st, fv, pos + list(kw.values()), None, f"call({qual.split('.')[-1]})")
